@@ -8,6 +8,7 @@ import logging
 from typing import Any
 
 import aiofiles
+from marshmallow import ValidationError
 
 from .exceptions import PersistenceReadError, PersistenceWriteError
 from .model.node import Node, NodeSchema
@@ -39,12 +40,18 @@ class Persistence:
             LOGGER.debug("Persistence file missing, creating file: %s", path)
             await self.save()
             return
-        except (OSError, ValueError) as err:
+        except (OSError, ValueError, RecursionError) as err:
             raise PersistenceReadError(err) from err
+
+        if not isinstance(data, dict):
+            raise PersistenceReadError(TypeError("Persistence data is not an object."))
 
         node_schema = NodeSchema()
         for node_data in data.values():
-            node: Node = node_schema.load(node_data)
+            try:
+                node: Node = node_schema.load(node_data)
+            except ValidationError as err:
+                raise PersistenceReadError(err) from err
             self.nodes[node.node_id] = node
 
     async def save(self) -> None:
